@@ -677,6 +677,9 @@ primaryexpr(struct scope *s)
 		++src;
 		src += decodechar(src, &chr, NULL, "character constant", &tok.loc);
 		e = mkconstexpr(t, chr);
+		/* an unprefixed constant has the value of its character converted from char to int */
+		if (tok.lit[0] == '\'' && typechar.u.basic.issigned && chr & 0x80)
+			e->u.constant.u |= ~0xffull;
 		if (*src != '\'')
 			error(&tok.loc, "character constant contains more than one character: %c", *src);
 		next();
